@@ -446,6 +446,11 @@ class Machine:
             return a * int(b.v)
         if is_nan(a) or is_nan(b):
             return NAN
+        # multiplication by the number of rows of the batch (shape[0]) is kept visible: "<per-row amount>*opaque:n"
+        if isinstance(op, ast.Mult):
+            for x, y in ((a, b), (b, a)):
+                if isinstance(y, Opaque) and y.desc == "n" and not (isinstance(x, Opaque) and x.desc == "n"):
+                    return Opaque(f"{x!r}*opaque:n")
         if isinstance(a, Num) and isinstance(b, Num):
             try:
                 if isinstance(op, ast.Add):
